@@ -1,17 +1,38 @@
 """C09 — parallel execution returns bit-identical results to serial execution (DESIGN.md 6/C09).
 
 Tie (both mechanisms):
-  * translator harness/translate/c09_footprint.py regenerates Generated/ParFootprint.lean from
-    srs.py / fdepsd.py on every run; `generated_footprints_ok` is then re-proved by `decide`;
-  * correspondence: (a) the footprint is validated behaviourally — every worker is run in-process on
-    recording arrays and the cells it really writes/reads are compared with what the Lean `covers`
-    (Drivers/C09.lean) says the generated patterns touch; (b) `srs.srs` / `fdepsd.fdepsd` with
-    parallel='yes', several worker counts and completion orders forced from the harness, compared
-    BIT FOR BIT with parallel='no' (this comparison is also the model-free oracle).
+  * translators harness/translate/c09_footprint.py (worker side: access footprints, worker body == serial
+    loop body) and harness/translate/c09_parent.py (parent side: the decision `_process_parallel`, the
+    shared-memory helpers, every pool site: task list, shared allocations with symbolic shapes, argument
+    tuple, serial loop header, copy-out, where the peak function is called) regenerate
+    Generated/ParFootprint.lean and Generated/ParFootprintParent.lean from srs.py / fdepsd.py on every run;
+    `generated_footprints_ok`, `generated_parent_ok`, `generated_decision_is_std`, … are then re-proved by
+    `decide`;
+  * correspondence:
+    (a) footprints validated behaviourally — every worker is run in-process on recording arrays and the
+        cells it really writes/reads are compared with what the Lean `covers` says the generated patterns
+        touch; the writers of every cell are compared with Lean's `ownerOf`, and Lean's `part` (exactly one
+        covering task per cell) is evaluated on the concrete shapes;
+    (b) decision: the real `srs._process_parallel` (cpu count and platform substituted) against the Lean
+        interpreter of the REGENERATED table, exactly, over a grid around every threshold;
+    (c) parent plan: `srs.srs` / `fdepsd.fdepsd` run with `multiprocessing.Pool` replaced by a recording,
+        in-process pool that executes the tasks in a prescribed order: pool size, initialiser, worker
+        function, task list, shapes / element type / zero fill of every shared array, argument tuple
+        compared exactly with the plan the Lean model computes from the regenerated site table; outputs
+        compared bit for bit with parallel='no' for EVERY permutation of <= 4 tasks (5 in thorough);
+    (d) real pool: parallel='yes' with worker counts 1..#tasks+1, maxcpu None / 1 / 2 / large, completion
+        orders forced by harness-side delays (every permutation of <= 3 tasks, 4 in thorough; random
+        patterns for more), layouts (C / F / strided / reversed), dtypes, every ic x stype x peak x time x
+        getresp x eqsine, roll-off methods; fdepsd: resp x rolloff x ppc x hpfilter x detrend x winends x
+        nbins; compared BIT FOR BIT with parallel='no' (this comparison is also the model-free oracle);
+    (e) call sequences: serial then parallel, parallel twice, histories on then off, results of an
+        earlier call unchanged by a later one, leftover module globals.
 """
+import contextlib
 import itertools
 import multiprocessing as mp
 import os
+import sys
 import time
 import warnings
 
@@ -20,60 +41,104 @@ import numpy as np
 from runner import Infra, TieBroken
 
 ID = "C09"
-LEAN_MODULES = ["PyYetiVerif.Props.C09", "PyYetiVerif.Audit.C09"]
+LEAN_MODULES = ["PyYetiVerif.Props.C09", "PyYetiVerif.Props.C09Parent", "PyYetiVerif.Audit.C09"]
 AUDIT_FILE = "PyYetiVerif/Audit/C09.lean"
 THEOREMS = [
     "PyYetiVerif.C09." + n
     for n in (
         "schedule_independent parallel_eq_serial final_is_solo footprint_gives_hyp "
-        "generated_footprints_ok generated_workers_complete"
+        "generated_footprints_ok generated_workers_complete "
+        # parent side
+        "generated_decision_is_std generated_helpers_std auto_rule yes_rule no_rule invalid_option_raises "
+        "pool_size_bounds pool_size_ignores_task_count generated_parent_ok generated_sites_complete "
+        "generated_serial_is_worker_loop tasks_partition_outputs generated_outputs_partitioned "
+        "assembly_eq_serial generated_srs_owner srs_hyp srs_final_cells peak_applied_once "
+        "getresp_histories_eq_serial srs_routine_eq_serial"
     ).split()
 ]
 TRUSTED = [
-    "translator harness/translate/c09_footprint.py (Python ast; grammar stated in its docstring), cross-checked "
-    "behaviourally on recording arrays every run",
+    "translators harness/translate/c09_footprint.py and c09_parent.py (Python ast; grammars stated in their "
+    "docstrings; anything outside them breaks the tie), cross-checked behaviourally every run (recording arrays, "
+    "recording pool)",
     "worker bodies are deterministic functions of (j, read-only inputs): scipy.signal.lfilter, numpy reductions, "
-    "cyclecount.findap/rainflow are assumed deterministic within one process",
-    "multiprocessing.RawArray / np.frombuffer give plain shared memory with atomic element writes",
-    "OS scheduling cannot be exhibited by the model; completion orders are sampled by harness-side delays",
+    "cyclecount.findap/rainflow are assumed deterministic within one process and across forked processes",
+    "multiprocessing.RawArray / np.frombuffer give plain shared memory with atomic element writes; "
+    "Pool.imap_unordered calls the function exactly once per item and its iterator ends only when all have returned",
+    "OS scheduling cannot be exhibited by the model; completion orders are enumerated exactly on the recording "
+    "in-process pool and sampled on the real pool by harness-side delays",
 ]
 RULE = (
-    "a case is one (routine, options, signal, frequency vector, worker count, forced delay pattern) whose parallel "
-    "outputs are compared bit for bit with the serial outputs; non-trivial = at least 2 tasks ran on at least 2 "
-    "workers and the observed completion order differs from the submission order; distinct by the option tuple, "
-    "delay seed and observed order"
+    "a case is one (routine, options, signal, frequency vector, worker count, completion order) whose parallel "
+    "outputs are compared bit for bit with the serial outputs; on the recording pool the order is prescribed (all "
+    "permutations of <= 4 tasks), on the real pool it is forced by delays and the observed order is recorded; "
+    "non-trivial = at least 2 tasks and a completion order different from the submission order (real pool: on at "
+    "least 2 workers); distinct by the option tuple, order and pool kind.  Decision cases: one argument tuple of "
+    "_process_parallel with a substituted cpu count / platform, compared exactly with the Lean interpreter"
 )
-ASSUMPTIONS = ["fork start method (Linux default for multiprocessing.Pool in this Python)"]
+ASSUMPTIONS = ["fork start method (Linux default for multiprocessing.Pool in this Python)",
+               "maxcpu is None or a non-negative integer; a callable `peak` handed to parallel='yes' is picklable"]
 PARTIAL = (
-    "partial: schedule-independence is proved for the modelled protocol (tasks = deterministic step functions over "
-    "shared cells, footprints extracted from the source); OS scheduling, RawArray semantics and library code paths "
-    "inside worker processes are sampled by the run-time bit comparison only"
+    "partial: proved for the modelled protocol — schedule independence (tasks = deterministic step functions over "
+    "shared cells, footprints regenerated from the source), the decision rule, the partition of the output arrays by "
+    "the tasks' cells for any sizes, equality of the assembled outputs with the serial routine's (which starts from "
+    "np.empty arrays) for every complete schedule, peak / eqsine applied once, histories equal.  NOT proved, sampled "
+    "by the run-time comparison only: OS scheduling, RawArray / fork semantics (that a child's write is what the "
+    "parent later reads), that Pool.imap_unordered runs every task exactly once and returns after all have finished, "
+    "library code paths inside worker processes (lfilter, findap, rainflow taken as deterministic functions), and "
+    "that a finished worker has written every cell its write patterns cover (hypothesis `hTot` of "
+    "assembly_eq_serial; checked on recording arrays).  fdepsd's post-processing (G1 … G12, data frames) enters "
+    "the theorem as an arbitrary function `post` of the output cells: that it is the same code on both paths is a "
+    "regenerated fact (the tail does not mention `parallel`), its arithmetic is not modelled here (C10)"
 )
 MANIFEST = {
-    "level_text": "Proof (Lean 4) that in any system of deterministic tasks whose writes go only to cells owned by the "
-    "task and whose steps depend only on read-only cells and the task's own cells, every complete schedule (any "
-    "interleaving, worker count, completion order) ends in the same shared memory as serial execution "
-    "(`schedule_independent`, `parallel_eq_serial`), that a well-formed access footprint implies those hypotheses "
-    "(`footprint_gives_hyp`), and — re-proved by `decide` on a table regenerated from srs.py/fdepsd.py on every run — "
-    "that the five worker functions have well-formed footprints and are textually their serial loop bodies "
-    "(`generated_footprints_ok`). Run-time: footprints validated on recording arrays against Lean's `covers`, and "
-    "parallel outputs compared bit for bit with serial under forced completion orders. Partial by nature: the runtime "
-    "(OS scheduler, shared-memory semantics) is outside any model.",
-    "level_note": "Trusted: Lean kernel (axioms propext, Quot.sound), the ast translator (grammar in its docstring; "
-    "anything outside it breaks the tie), determinism of scipy/numpy kernels inside a worker, fork start method.",
-    "technique": "Lean 4 proof of schedule independence (simulation invariant over interleavings) + source-to-Lean "
-    "footprint translator re-checked by decide + run-time bit comparison under forced completion orders",
+    "level_text": "Proof (Lean 4), worker side: in any system of deterministic tasks whose writes go only to cells "
+    "owned by the task and whose steps depend only on read-only cells and the task's own cells, every complete "
+    "schedule (any interleaving, worker count, completion order) ends in the same shared memory as serial execution "
+    "(`schedule_independent`, `parallel_eq_serial`); a well-formed access footprint implies those hypotheses "
+    "(`footprint_gives_hyp`).  Parent side: the decision `_process_parallel` stated outright for the regenerated "
+    "table (`auto_rule`: pool iff LF > 1 and size > 50000 and not getresp and cpu count > 1 and not Windows; "
+    "`yes_rule`: pool size = maxcpu if 0 < maxcpu < cpu count, else 4/5 of the cpu count above four CPUs, else the "
+    "cpu count — it does not depend on the number of tasks; `no_rule`, `invalid_option_raises`, `pool_size_bounds`); "
+    "`tasks_partition_outputs` / `generated_outputs_partitioned`: for the regenerated footprints and shared-array "
+    "shapes and ANY number of frequencies, columns, time steps and bins every cell of every output array is "
+    "written by exactly one task; `assembly_eq_serial`: outputs after copy-out and any post-processing equal the "
+    "serial routine's for every complete schedule although the serial routine starts from np.empty arrays; on the "
+    "srs worker system `peak_applied_once` (each spectrum cell = eqsine scaling applied once to the peak function "
+    "applied once to the response of its frequency, on both paths), `getresp_histories_eq_serial`, "
+    "`srs_routine_eq_serial`.  Re-proved by `decide` on tables regenerated from srs.py / fdepsd.py on every run: "
+    "the five worker footprints are well-formed and the workers are textually their serial loop bodies under a "
+    "renaming derived from the parent's own copy-in / copy-out statements (`generated_footprints_ok`), the pool "
+    "sites pass `siteOk` (`generated_parent_ok`: task list zip(range(LF), repeat(args, LF)), serial loop over the "
+    "same index set with the same argument expressions in the same order — `generated_serial_is_worker_loop` —, "
+    "every written array zero-filled with covered slabs and the same shape as its serial counterpart, np.empty "
+    "arrays never read, inputs copied in, peak function called once in the worker and the serial body and never by "
+    "the parent, path-independent tail), the helpers use C doubles viewed as float64 (`generated_helpers_std`).",
+    "level_note": "Tied, not proved: footprints and ownership validated on recording arrays against Lean's "
+    "`covers` / `ownerOf` / `part`; the decision against the Lean interpreter over a grid (exact); the parent's plan "
+    "(pool size, worker, task list, shared shapes / element type / zero fill, argument tuple) against the Lean "
+    "model on a recording in-process pool (exact); parallel outputs compared bit for bit with serial for every "
+    "permutation of <= 4 tasks on the recording pool and under forced completion orders on the real pool "
+    "(worker counts, maxcpu, layouts, dtypes, every option), call sequences.  Trusted: Lean kernel (axioms propext, "
+    "Classical.choice, Quot.sound), the ast translators, determinism of scipy/numpy kernels inside a worker, "
+    "fork start method, multiprocessing.Pool / RawArray semantics.  Partial by nature: the runtime (OS scheduler, "
+    "shared-memory semantics) is outside any model.",
+    "technique": "Lean 4 proofs (simulation invariant over interleavings; interpreter of the regenerated decision "
+    "table; slab coverage by abstract cells; garbage-independence of the serial start) + two source-to-Lean "
+    "translators re-checked by decide + run-time bit comparison under enumerated / forced completion orders",
 }
 
 _WS = None
 
 
+_PARENT = None
+
+
 def translate(ctx):
-    global _WS
+    global _WS, _PARENT
     from translate import c09_footprint
 
-    _WS = c09_footprint.generate(ctx.repo, ctx.lean)
-    return ["ParFootprint.lean"]
+    _WS, _PARENT = c09_footprint.generate(ctx.repo, ctx.lean)
+    return ["ParFootprint.lean", "ParFootprintParent.lean"]
 
 
 # ---------------------------------------------------------------------------------------
